@@ -179,6 +179,17 @@ CHECKS['C14'] = dict(
     note='trusted: TLC, Normalize.tla; numbering independence with tautomer fixing is claimed on the fixed corpus only (as the property states)',
     technique='TLC validation of recorded normalisation histories against the action properties of Normalize.tla',
     design='5/C14')
+CHECKS['C16'] = dict(
+    text='For every match of synthetic templates (one per patcher branch: any-atom reuse, stated elements, new atoms with isotope / stated hydrogens, '
+         'deleted atoms with hanging fragments and rings through them, masked atoms, charge and bond order changes, stereo override, delete_atoms '
+         'off) and of the built-in deprotection collection on corpus molecules, TLC computes from structure, template and match the product the '
+         'template denotes (numbers, attributes, bonds, deleted and detached atoms, unchanged frame incl. configuration) and compares it with the '
+         'real one; products equal matches in number; identity templates return the input; the documented deprotection tests and decoys; built-in '
+         'and synthetic Reactor templates on reordered, renumbered, colliding reactants give the same product sets with unique atom numbers and '
+         'no valence error.',
+    note='trusted: TLC, Template.tla, Valence.tla; match enumeration itself is decided by C07/C08; the valence clause is waived where the template leaves an open valence by construction',
+    technique='TLC computation of the denoted product from (structure, template, match) compared with recorded Transformer / Reactor products',
+    design='5/C16')
 PENDING = {}
 
 
